@@ -8,7 +8,7 @@ from common import stable_hash
 from props import c01, c04
 
 ID = "C05"
-GEN_DEPENDS = ["PyBits"]
+GEN_DEPENDS = ["PyBits", "C05Kernels"]
 RULE = ("samples of 1-12 trees over 3-8 taxa (namespace sometimes with a hole = removed member, in the property's domain; sometimes with an "
         "extra member no tree carries, outside the domain and judged on the domain-free clauses only), drawn around a base topology so "
         "that majority splits exist, rooted / unrooted / unspecified rooting (rarely mixed), polytomies and unary nodes, dyadic / zero / "
@@ -17,13 +17,27 @@ RULE = ("samples of 1-12 trees over 3-8 taxa (namespace sometimes with a hole = 
         "as float(k)/n and judged by the integer comparison count >= k; oracle only); unanimous splits must be reported as exactly 1.0; targets from the sample or perturbed; support as fraction / percentage / label; samples ASSEMBLED by TreeArray merges (a + b, +=, update, extend) "
         "whose operands are kept, grown, and judged like the result; histories of summarising calls with DIFFERENT settings on one "
         "collection (percentage, label, set_edge_lengths, attribute name), each judged under its own settings only; every case is a "
-        "self-contained description (tokens of every tree) that `--replay` re-runs; non-trivial = at least two distinct topologies")
+        "self-contained description (tokens of every tree) that `--replay` re-runs; op `annot`: ONE summarising call with drawn settings "
+        "(percentage, label with 0/1/2/3/4/6 places, set_edge_lengths None/keep/support/clear/mean-length/median-length, minimum_edge_length, "
+        "weights making dyadic frequencies such as 1/32 = rounding ties, rarely NOTHING counted) on a target in or out of encoded form, through "
+        "TreeArray or SplitDistribution, everything it writes compared node by node with the model; collapse targets whose rooting does not "
+        "fit the sample (deliberate refusal); non-trivial = at least two distinct topologies")
 MODELLED_NOT_VERIFIED = [
     "C05: the Lean model (Model/C05.lean on C01/C04) is hand-written from SplitDistribution.count_splits_on_tree / calc_freqs / consensus_tree, "
     "TreeArray.calculate_*_of_split_supports, summarize_splits_on_tree (support) and collapse_edges_with_less_than_minimum_support; tied per "
     "sample (frequencies, consensus tree with child order, scores, maximiser when unique, per-split count/mean/median/min/max/variance as "
     "exact rationals, supports written on a target, collapsed tree, and — op `hist` — the answers of frequency and summary queries "
-    "interleaved with additions on ONE distribution, through the modelled cache tables)",
+    "interleaved with additions on ONE distribution, through the modelled cache tables; op `annot2`: per node of a target the support, "
+    "the label string, the edge length after the call and the length summary written, for every setting of one summarising call; the rooting "
+    "refusals of collapse). Its closed-form kernels are NOT trusted copies: Gen/C05Kernels.lean is regenerated from the source on every run "
+    "(weight_to_use, normaliser, stored frequency, the three recalculate-iff tests and calc_freqs' stamps, the consensus keep test with its "
+    "1e-7 clause / sort key / direction, GREATER_THAN_HALF and the min_freq defaults, the collapse node test and rooting refusals, which "
+    "splits are scored and when the maximiser moves, percentage factor / configure defaults / no-data values / minimum-length clamp, the "
+    "one-pass mean and variance, the median's parity test and index arithmetic) and the kernel_* theorems prove them equal to the model's",
+    "C05: harness/gen/c05kernels.py reads float literals as the decimal numbers written (0.0000001 = 1/10^7) and Python float arithmetic as "
+    "exact rational arithmetic; the label rendering `fixedPoint` (digits of roundHalfEven) is compared digit by digit whenever the float "
+    "support is exact, its rounding core is proved (roundHalfEven_spec), its digit rendering is not; collapse with a threshold <= 0 is outside "
+    "the model (the code flags a split absent from the table whatever the threshold; the driver answers bad-threshold)",
     "C05: math.log in the product score (the model multiplies supports; compared through exp within 1e-9), binary64 (weights, lengths and "
     "thresholds are dyadic so exact and float verdicts coincide; means and variances are compared within 1e-9 / 1e-6), HPD / 5-95 quantiles "
     "and annotation objects (not in the statement); node ages are checked by the oracle only (not modelled)",
@@ -55,8 +69,23 @@ EXPLANATION = ("Theorems (all about the definitions the driver runs): frequency 
                "every seed drawing whose encoded seed has degree >= 3); parsed_encoded_ids_distinct + collapse_parsed_exact + collapseBelow_total "
                "(parsed targets: ids distinct through the encoding, exactly the weak internal edges go, and the call answers when no leaf edge is "
                "weak); strict_consensus_weighted(_exact) (threshold 1 under arbitrary non-negative weights: the tolerance admits exactly the splits "
-               "whose lacking weight is <= 1e-7 of the total; every split of every tree when each weight exceeds that).")
+               "whose lacking weight is <= 1e-7 of the total; every split of every tree when each weight exceeds that); "
+               "kernel_weight / kernel_freq / kernel_cache / kernel_candidates / kernel_default_threshold / kernel_collapse / kernel_scores / "
+               "kernel_summarizer / kernel_stats / kernel_median (tie A: each kernel regenerated from the current source equals the model's "
+               "definition; the default threshold GREATER_THAN_HALF is >= 1/2, at most 1e-15 above it and outside the 1e-7 clause — it "
+               "currently IS 1/2, so the default consensus is the greedy one); annotate_spec (one summarising call decorates exactly the "
+               "nodes of the encoded target, support = frequency of the node's own split, x100 when asked, label iff asked, each "
+               "set_edge_lengths mode writes what it names, raised to the minimum) + summary_of_counted (the summary looked up is the "
+               "statistics of exactly that split's values over the counted trees, none when no tree has it) + annotate_answers_iff + "
+               "roundHalfEven_spec (label rounding: nearest, ties to even); collapseCall_spec + collapseRefuses_spec (the call refuses on "
+               "rooting grounds exactly when target and sample differ in rootedness); treeRecOf_unrooted_basal_dup (encoded seed of degree 2 = the known-finding class: both basal edges carry the same normalised "
+               "split, the record lists it twice, Nodup fails — with treeRecOf_unrooted_hts every not-rooted drawing is settled); "
+               "treeRecOf_unrooted_hts_drawn is the former "
+               "`_partial` special case of treeRecOf_unrooted_hts (no `_partial` theorem is left; the uncovered not-rooted class is exactly "
+               "the known finding `basal bifurcation survives`).")
 
+OPS = ["summ", "collapse", "incremental", "more", "attain", "merge", "annot"]
+OP_WEIGHTS = [0.32, 0.13, 0.12, 0.10, 0.11, 0.10, 0.12]
 THRESHOLDS = [None, 0.0, 0.25, 0.5, "GTH", 0.625, 0.75, 1.0]
 ROOTED = {"R": True, "U": False, "N": None}
 DEFECT_BASAL = "basal-split-counted-twice"
@@ -576,6 +605,11 @@ def flush(ctx, pending):
         if o.startswith("bad-"):
             ctx.disagree(line.split(" ", 1)[0], case, "ok", o)
             continue
+        if "annot2" in impl:
+            bad = compare_annot2(o, impl["annot2"], impl["decimals"])
+            if bad:
+                ctx.disagree("annot2", case, bad, o[:300])
+            continue
         if "hist" in impl:
             toks = o.split()
             want = impl["hist"]
@@ -675,6 +709,199 @@ def flush(ctx, pending):
     del pending[:]
 
 
+
+# ------------------------------------------------------------------ one summarising call: everything it writes on a target (op `annot2`)
+ANNOT_MODES = [None, "keep", "support", "clear", "mean-length", "median-length"]
+
+
+def gen_annot(ctx, dendropy):
+    """a sample (rarely: NOTHING counted, the trees only define the namespace), a target from the sample or perturbed (half of the
+    time not in encoded form), and the settings of one call: percentage, label with 0/1/2/4/6 places, every set_edge_lengths mode,
+    a minimum edge length"""
+    rng = ctx.rng
+    tns, trees = gen_sample(dendropy, rng, ctx)
+    Fmask = members_mask(tns)
+    if len({t.is_rooted for t in trees}) != 1 or any(basal_split(t) is not None for t in trees) \
+            or any(tu.leafset_masks(t)[id(t.seed_node)] != Fmask for t in trees):
+        return None
+    src = trees[rng.randrange(len(trees))] if rng.random() < 0.7 else c04.perturb(dendropy, rng, trees[0])
+    if basal_split(src) is not None:
+        return None
+    tgt = c04.clone(dendropy, src)
+    normal = rng.random() < 0.5
+    if normal:
+        tgt.encode_bipartitions()
+    if rng.random() < 0.25:
+        # weights that make non-trivial dyadic frequencies (ties of the label rounding: 1/32 at four places is 0.03125)
+        for t in trees:
+            t.weight = rng.choice([1.0, 3.0, 7.0, 15.0, 31.0, 0.5])
+    opts = {"pct": rng.random() < 0.3, "label": rng.random() < 0.6, "decimals": rng.choice([0, 1, 2, 3, 4, 4, 6]),
+            "mode": rng.choice(ANNOT_MODES), "min": rng.choice([None, None, None, 0.25, 1.0])}
+    counted = 0 if rng.random() < 0.05 else len(trees)
+    return dict(sample_case(tns, trees, rng.random() < 0.6, None, False), op="annot", target=tree_rec(tgt), target_normal=normal,
+                annot_opts=opts, counted=counted, via=rng.choice(["TreeArray", "SplitDistribution"]))
+
+
+def annot_kwargs(o):
+    kw = {}
+    if o["pct"]:
+        kw["support_as_percentages"] = True
+    if o["label"]:
+        kw["set_support_as_node_label"] = True
+    if o["decimals"] != 4:
+        kw["support_label_decimals"] = o["decimals"]
+    if o["mode"] is not None:
+        kw["set_edge_lengths"] = o["mode"]
+    if o["min"] is not None:
+        kw["minimum_edge_length"] = o["min"]
+    return kw
+
+
+def run_annot(ctx, dendropy, case, pending):
+    tns, all_trees = trees_of_case(dendropy, case)
+    trees = all_trees[:case["counted"]]
+    use_w, o = case["use_weights"], case["annot_opts"]
+    ctx.case(["annot", stable_hash(case)], not trees or len({c01.canon_rooted(t) for t in trees}) >= 2, kind="annot")
+    ctx.count("annot set_edge_lengths=%s" % o["mode"])
+    ctx.count("annot label places=%s" % (o["decimals"] if o["label"] else "no label"))
+    if o["min"] is not None:
+        ctx.count("annot minimum_edge_length given")
+    if not trees:
+        ctx.count("annot nothing counted")
+    fr = oracle_freqs(trees, use_w)[0] if trees else {}
+    per_split = {}
+    for t in trees:
+        for s, l in c04.split_lengths(t).items():
+            per_split.setdefault(s, []).append(l)
+    tgt, ids = tree_of_rec(dendropy, case["target"], tns)
+    was = {id(nd): nd.edge.length for nd in tu.walk(tgt.seed_node)} if case.get("target_normal") else None
+    tl = dendropy.TreeList(taxon_namespace=tns)
+    for t in trees:
+        c = c04.clone(dendropy, t)
+        c.weight = t.weight
+        tl.append(c)
+    if case.get("via") == "SplitDistribution":
+        holder = tl.split_distribution(use_tree_weights=use_w, default_edge_length_value=0)
+    else:
+        holder = dendropy.TreeArray(taxon_namespace=tns, use_tree_weights=use_w)
+        holder.add_trees(tl)
+    d, pct, mode, mn = o["decimals"], o["pct"], o["mode"], o["min"]
+    what = "%s.summarize_splits_on_tree(%s)" % (case.get("via"), annot_kwargs(o))
+    refused = False
+    try:
+        holder.summarize_splits_on_tree(tgt, **annot_kwargs(o))
+    except Exception as e:
+        if not common.is_library_exception(e):
+            raise
+        refused = True
+        if not (isinstance(e, ValueError) and mode in ("mean-length", "median-length") and not per_split):
+            ctx.fail("summary", "%s raised %s: %s (%d trees counted)" % (what, type(e).__name__, str(e)[:100], len(trees)), case)
+            return
+    impl = "E"
+    if not refused:
+        impl = {}
+        clamp = (lambda x: x) if mn is None else (lambda x: max(x, Fraction(mn)))
+        for nd, s in node_splits(tgt)[0]:
+            want = fr.get(s, Fraction(0)) * (100 if pct else 1)
+            sup = getattr(nd, "support", None)
+            if sup is None or not close(sup, float(want), 1e-12):
+                ctx.fail("support", "%s: node of split %d has support %r, frequency is %s%s" % (what, s, sup, fr.get(s, 0), " (percentage requested)" if pct else ""), case)
+                return
+            if o["label"]:
+                lab = nd.label
+                try:
+                    val = float(lab)
+                    shape_ok = isinstance(lab, str) and (("." not in lab) if d == 0 else (len(lab.split(".")[-1]) == d and "." in lab))
+                except (TypeError, ValueError):
+                    val, shape_ok = None, False
+                if val is None or not shape_ok or abs(Fraction(lab) - want) > Fraction(1, 2 * 10 ** d) + Fraction(1, 10 ** 9):
+                    ctx.fail("support", "%s: label %r for split %d: not the support %s rendered with %d decimal places" % (what, lab, s, want, d), case)
+                    return
+            elif nd.label is not None:
+                ctx.fail("settings", "%s: node of split %d was given the label %r although no label was requested" % (what, s, nd.label), case)
+                return
+            L = nd.edge.length
+            vals = per_split.get(s)
+            if mode in (None, "keep"):
+                if was is not None and id(nd) in was and ((L is None) != (was[id(nd)] is None) or (L is not None and Fraction(L) != Fraction(was[id(nd)]))):
+                    ctx.fail("settings", "%s: edge of split %d has length %r after a call that requested no edge lengths (it was %r)" % (what, s, L, was[id(nd)]), case)
+                    return
+            elif mode == "clear":
+                if L is not None:
+                    ctx.fail("settings", "%s: edge of split %d still has length %r" % (what, s, L), case)
+                    return
+            else:
+                if mode == "support":
+                    w = want
+                elif vals:
+                    w = exact_stats(vals)[0 if mode == "mean-length" else 1]
+                else:
+                    w = None        # a split no tree carries: the statement prescribes no value
+                if w is not None and (L is None or not close(L, float(clamp(w)))):
+                    ctx.fail("summary", "%s: edge of split %d has length %r, the %s is %s%s" % (
+                        what, s, L, "support" if mode == "support" else mode[:-7] + " of its values over the input trees", w,
+                        "" if mn is None else " (minimum edge length %s)" % mn), case)
+                    return
+            if vals and s not in {b for b in map(basal_split, trees) if b is not None}:
+                prob = summary_problem(nd.edge, "length_", vals)
+                if prob:
+                    ctx.fail("summary", "%s: edge of split %d: %s" % (what, s, prob), case)
+                    return
+            e = nd.edge
+            summ = None
+            if getattr(e, "length_mean", None) is not None or getattr(e, "length_median", None) is not None:
+                summ = {k: getattr(e, "length_" + k, None) for k in ("mean", "median", "range", "sd")}
+            impl[ids.of(nd)] = (sup, nd.label, L, summ)
+    line = "annot2 %d %d %d %d %s %s %d %s %s %s" % (
+        use_w, pct, o["label"], d, mode or "keep", "N" if mn is None else tu.frac(mn), len(trees),
+        recs_line(dict(case, trees=case["trees"][:case["counted"]])), case["target"]["rooted"], " ".join(case["target"]["tree"]))
+    line = " ".join(line.split())
+    pending.append((line, case, {"annot2": impl, "decimals": d}))
+
+
+def compare_annot2(o, impl, d):
+    """None, or how the model's account of one summarising call differs from what the library wrote"""
+    if (o.strip() == "E") != (impl == "E"):
+        return "refusal: impl %s model %s" % ("E" if impl == "E" else "answers", o[:40])
+    if impl == "E":
+        return None
+    model = {}
+    for tok in o.split():
+        i, s, sup, lab, L, summ = tok.split(";")
+        model[int(i)] = (int(s), Fraction(sup), lab, L, summ)
+    if set(model) != set(impl):
+        return "nodes decorated: impl %s model %s" % (sorted(impl, key=str), sorted(model))
+    for i, (s, msup, mlab, mL, msumm) in sorted(model.items()):
+        sup, lab, L, summ = impl[i]
+        if not close(sup, float(msup), 1e-12):
+            return "support of node %d (split %d): impl %r model %s" % (i, s, sup, msup)
+        if (mlab == "-") != (lab is None):
+            return "label of node %d: impl %r model %s" % (i, lab, mlab)
+        if lab is not None:
+            if Fraction(sup) == msup:
+                if lab != mlab:     # the value is exactly representable: the rendering is determined digit by digit (ties to even)
+                    return "label of node %d (support %s exactly): impl %r model %s" % (i, msup, lab, mlab)
+            elif abs(Fraction(lab) - Fraction(mlab)) > Fraction(1, 10 ** d):
+                return "label of node %d: impl %r model %s" % (i, lab, mlab)
+        if (mL == "N") != (L is None) or (L is not None and not close(L, float(Fraction(mL)))):
+            return "edge length of node %d (split %d): impl %r model %s" % (i, s, L, mL)
+        if (msumm == "none") != (summ is None):
+            return "length summary of node %d written: impl %r model %s" % (i, summ, msumm)
+        if summ is not None:
+            if msumm == "-":
+                if summ["mean"] != 0 or summ["median"] != 0:
+                    return "no-data summary of node %d: impl %r" % (i, summ)
+            else:
+                n, mean, med, lo, hi, var = msumm.split(",")
+                rg = summ["range"]
+                ok = close(summ["mean"], float(Fraction(mean))) and Fraction(summ["median"]) == Fraction(med) and len(rg) == 2 and \
+                    Fraction(rg[0]) == Fraction(lo) and Fraction(rg[1]) == Fraction(hi) and \
+                    (var == "inf" or close(summ["sd"] ** 2, float(Fraction(var)), 1e-6))
+                if not ok:
+                    return "length summary of node %d (split %d): impl %r model %s" % (i, s, summ, msumm)
+    return None
+
+
 # ------------------------------------------------------------------ collapse
 def gen_collapse(ctx, dendropy):
     rng = ctx.rng
@@ -695,7 +922,11 @@ def gen_collapse(ctx, dendropy):
     normal = rng.random() < 0.5 or tgt.is_rooted is not True or len(tgt.seed_node._child_nodes) < 2
     if normal:
         tgt.encode_bipartitions()  # normal form (no unifurcation, no basal bifurcation): the call under test re-encodes first, a no-op here
-    return dict(sample_case(tns, trees, use_w, thr, False), op="collapse", target=tree_rec(tgt), target_normal=normal)
+    mismatch = rng.random() < 0.1
+    if mismatch:
+        # a target whose rooting state does not fit the sample's: both combinations are refused by the call before it touches the tree
+        tgt.is_rooted = rng.choice([False, None]) if trees[0].is_rooted is True else True
+    return dict(sample_case(tns, trees, use_w, thr, False), op="collapse", target=tree_rec(tgt), target_normal=normal, target_mismatch=mismatch)
 
 
 def internal_splits(tree):
@@ -716,6 +947,8 @@ def run_collapse(ctx, dendropy, case, pending_c):
     thr = thr_label(thr)
     fr, _ = oracle_freqs(trees, use_w)
     ctx.case(["collapse", stable_hash(case)], len(trees) >= 2, kind="collapse")
+    if case.get("target_mismatch"):
+        ctx.count("collapse target rooting does not fit the sample")
     got_model = None
     for route in ("TreeArray", "SplitDistribution"):
         tgt, ids = tree_of_rec(dendropy, case["target"], tns)
@@ -723,6 +956,10 @@ def run_collapse(ctx, dendropy, case, pending_c):
         nsp, _L = node_splits(tgt)
         weak_leaf = any(fr.get(s, Fraction(0)) < thr_f for nd, s in nsp if not nd._child_nodes)
         want_internal = sorted(s for s in internal_splits(tgt) if fr.get(s, Fraction(0)) >= thr_f)
+        # a target read as rooted has clades, one read as not rooted has bipartitions: against a sample of the other kind there is
+        # no "frequency of its split" to speak of, and the call's deliberate refusal (ValueError) is legitimate
+        ill_fitting = (all(t.is_rooted is True for t in trees) and not tgt.is_rooted) or \
+            (not any(t.is_rooted is True for t in trees) and bool(tgt.is_rooted))
         if route == "TreeArray":
             ta = dendropy.TreeArray(taxon_namespace=tns, use_tree_weights=use_w)
             ta.add_trees(fresh_list(dendropy, tns, trees))
@@ -739,7 +976,7 @@ def run_collapse(ctx, dendropy, case, pending_c):
             if isinstance(e, (TypeError, AttributeError, IndexError, KeyError)):
                 # a refusal is raised deliberately; these escaping from inside the library are a crash, whatever the input
                 ctx.fail("collapse", "%s.collapse_edges_with_less_than_minimum_support crashed with %s: %s" % (route, type(e).__name__, str(e)[:100]), case)
-            elif not weak_leaf:
+            elif not weak_leaf and not ill_fitting:
                 ctx.fail("collapse", "%s.collapse_edges_with_less_than_minimum_support refused (%s: %s) although no leaf edge is below the threshold" % (
                     route, type(e).__name__, str(e)[:100]), case)
         if got != "E":
@@ -1345,6 +1582,8 @@ def gen_case(ctx, dendropy, op):
         return gen_incremental(ctx, dendropy)
     if op == "more":
         return gen_more(ctx, dendropy)
+    if op == "annot":
+        return gen_annot(ctx, dendropy)
     return gen_collapse(ctx, dendropy)
 
 
@@ -1362,6 +1601,8 @@ def run_case(ctx, dendropy, case, pending, pending_c):
             run_more(ctx, dendropy, case)
         elif op == "merge":
             run_merge(ctx, dendropy, case, pending)
+        elif op == "annot":
+            run_annot(ctx, dendropy, case, pending)
         else:
             raise ValueError("unknown op %r" % (op,))
     except Exception as e:
@@ -1373,12 +1614,12 @@ def run_case(ctx, dendropy, case, pending, pending_c):
 def run(ctx):
     dendropy = __import__("dendropy")
     rng = ctx.rng
-    ctx.set_budget(30, 600)
+    ctx.set_budget(30, 540)
     pending, pending_c = [], []
     for _ in range(ctx.pick(1500, 30000)):
         if ctx.out_of_time():
             break
-        op = rng.choices(["summ", "collapse", "incremental", "more", "attain", "merge"], [0.38, 0.13, 0.13, 0.12, 0.12, 0.12])[0]
+        op = rng.choices(OPS, OP_WEIGHTS)[0]
         case = gen_case(ctx, dendropy, op)
         if case is None:
             continue
@@ -1391,6 +1632,30 @@ def run(ctx):
     flush_c(ctx, pending_c)
     if ctx.tier == "thorough":
         exhaustive(ctx, dendropy, pending)
+
+
+def search(ctx, broken):
+    """obligations broke (a kernel regenerated from the source no longer equals the model's, or generation left the supported
+    subset) or the model disagrees: look for a concrete input on which the REAL code contradicts the statement, with the oracles
+    only, aimed at the regenerated kernels: thresholds that are attainable frequencies (`>=` vs `>`), weights None/zero/dyadic
+    (weight_to_use, normaliser), even counts (median), every summarising setting (percentage, label, edge-length modes, minimum),
+    collapse at each threshold and with ill-fitting rooting, scores and their maximiser"""
+    dendropy = __import__("dendropy")
+    rng = ctx.rng
+    pending, pending_c = [], []
+    t0 = __import__("time").time()
+    for i in range(ctx.pick(400, 3000)):
+        if ctx.failures and i > 50:
+            break
+        if __import__("time").time() - t0 > ctx.pick(25, 240):
+            break
+        op = ["attain", "annot", "collapse", "more", "summ", "incremental"][i % 6]
+        case = gen_case(ctx, dendropy, op)
+        if case is None:
+            continue
+        run_case(ctx, dendropy, case, pending, pending_c)
+        del pending[:]          # oracle only: the model is what is in doubt
+        del pending_c[:]
 
 
 def exhaustive(ctx, dendropy, pending):
